@@ -10,7 +10,7 @@ import ast
 from . import e2_formula as F
 from . import op4_model as M
 from . import c04_sem as S
-from .c04_lab import lab, WRITERS
+from .c04_lab import lab, WRITERS, data_base, slice_start
 from .c04_txt import Fld, Lit, Txt, is_bad, is_rat, atom_id, sym_name, strconst, const_int, single_atom
 from .core import AnchorError, Unsupported
 from .e1_srcmodel import dotted
@@ -193,6 +193,8 @@ def r2_headers(ctx):
             ok = nmv is not None and nmv.depends_on("name") and not nmv.depends_on("ROWS") and not nmv.depends_on("form")
             if is_bad(nm):
                 ctx.fail(f"_loadop4_ascii <- {fn.name} ({run.regime()}): the name is read from the name field", ctx.src.func(OP4, "OP4._loadop4_ascii"), nm.why)
+            elif nm is None or is_unknown(nm):
+                ctx.error(f"_loadop4_ascii <- {fn.name} ({run.regime()}): the name is read from the name field", ctx.src.func(OP4, "OP4._loadop4_ascii"), repr(nm)[:200])
             else:
                 ctx.check(ok, f"_loadop4_ascii <- {fn.name} ({run.regime()}): the name is read from the name field", ctx.src.func(OP4, "OP4._loadop4_ascii"),
                           None if ok else repr(nm)[:200])
@@ -232,6 +234,8 @@ def r2_headers(ctx):
             ok = nmv is not None and nmv.depends_on("name") and not nmv.depends_on("ROWS")
             if is_bad(nm):
                 ctx.fail(f"_loadop4_binary <- {fn.name} ({run.regime()}): the name is the 8 bytes that follow", ctx.src.func(OP4, "OP4._loadop4_binary"), nm.why)
+            elif nm is None or is_unknown(nm):
+                ctx.error(f"_loadop4_binary <- {fn.name} ({run.regime()}): the name is the 8 bytes that follow", ctx.src.func(OP4, "OP4._loadop4_binary"), repr(nm)[:200])
             else:
                 ctx.check(ok, f"_loadop4_binary <- {fn.name} ({run.regime()}): the name is the 8 bytes that follow", ctx.src.func(OP4, "OP4._loadop4_binary"),
                           None if ok else repr(nm)[:200])
@@ -299,6 +303,11 @@ def r3_string_headers(ctx):
                             continue
                         judge(ctx, ev_len(run, arr), nreal, f"{tag}: column header announces the number of reals of the slice that is printed", run.colhdr.node)
                     sl = slice_start(arr)
+                    if run.flag_min is not None:
+                        ok = run.flag_min >= 1
+                        ctx.check(ok, f"{tag}: the first-row field is positive for every first row >= 0 (the loader recognises the dense layout by it)", run.colhdr.node,
+                                  None if ok else {"field": repr(ch[off + 1]), "minimum": str(run.flag_min),
+                                                   "witness": "a column whose first non-zero is in row 0 is read as a sparse column"})
                     if sl is not None:
                         judge(ctx, first, sl, f"{tag}: column header announces (first row + 1) of the rows that are written", run.colhdr.node)
                     else:
@@ -360,13 +369,18 @@ def r3_string_headers(ctx):
                             judge(ctx, ev_len(run, arr), r1 * mult, f"{tag}: the printed string holds length * multiplier reals (the L // 2 the header announces)", run.strhdr.node)
                     # declared word count = what the strings occupy = what the reader subtracts
                     per = F.const(hwords) + Lw
-                    ns, tot = ns_and_sum(run)
                     nw = ch[off + 2]
-                    if ns is None:
-                        ctx.error(f"{tag}: declared nwords", run.colhdr.node, repr(nw)[:300])
+                    sp = split_nwords(nw)
+                    if sp is None:
+                        ctx.error(f"{tag}: declared nwords is a combination of the number of strings and the sum of their lengths", run.colhdr.node, repr(nw)[:300])
                     else:
-                        want = F.const(hwords) * ns + 2 * mult * tot
-                        judge(ctx, nw, want, f"{tag}: declared nwords = {hwords} header word(s) per string + 2 words per double", run.colhdr.node)
+                        ok = sp[0] == hwords and sp[1] == 2 * (2 if cplx else 1)
+                        ctx.check(ok, f"{tag}: declared nwords = {hwords} header word(s) per string + 2 words per double", run.colhdr.node,
+                                  None if ok else {"per string": str(sp[0]), "per unit of length": str(sp[1])})
+                        it = run.str_iter
+                        ok = is_rat(it) and depends_any(it, sp[2])
+                        ctx.check(ok, f"{tag}: the strings written are the rows of the table the word count is computed from", run.strhdr.node,
+                                  None if ok else repr(it)[:200], nontrivial=False)
                     if run.binary:
                         judge(ctx, ch[0], (3 + nw) * 4, f"{tag}: record length = (3 header words + nwords) * 4 bytes", run.colhdr.node)
                         tr = run.coltrail
@@ -446,6 +460,10 @@ def r3_string_headers(ctx):
                         k = 2 if other.binary else 1
                         first = v[k] - 1 if v and len(v) > k and is_rat(v[k]) else None
                     ok = not lo.left and not obad and lo.put is not None and first is not None and same(lo.put[1][1], first) and same(lo.put[1][2], other.col)
+                    if not ok and not obad and (lo.put is None or first is None or any(is_unknown(x) and not is_bad(x) for x in lo.put[1][1:3])):
+                        ctx.error(f"{'_loadop4_' + enc} <- {tag}, {other.regime()}: store call of the reader", ctx.src.func(OP4, "OP4._loadop4_" + enc),
+                                  repr([ast.unparse(getattr(n, "test", n))[:50] for n, _v, _q in lo.W.undecided[:3]]))
+                        continue
                     ctx.check(ok, f"{'_loadop4_' + enc} <- {tag}, {other.regime()}: the loader selects the reader of the layout that was written, consumes exactly "
                                   "the records emitted and recovers first row and column", ctx.src.func(OP4, "OP4._loadop4_" + enc),
                               None if ok else {"not consumed": repr(lo.left)[:200], "misread": obad[:2], "store": repr(lo.put[1][1:3])[:200] if lo.put else None})
@@ -471,66 +489,45 @@ def unseq(v):
     return v
 
 
-def data_base(v):
-    """idx(array, i) -> array"""
-    u = unfn(v) if is_rat(v) else None
-    if u and u[0] == "idx" and len(u[1]) == 2:
-        return u[1][0]
-    return None
-
-
 def ev_len(run, arr):
     if not is_rat(arr):
         return None
     return run.ev.len_of(arr)
 
 
-def slice_start(arr):
-    """first row of the rows an array value holds: the lower bound of the row slice it was cut with, or the offset of the scatter that fills it"""
-    seen = 0
-    v = arr
-    while seen < 12 and is_rat(v):
-        seen += 1
-        u = unfn(v)
-        if not u:
-            return None
-        name, a = u
-        if name in ("asreal", "call:.ravel", "call:np.asarray", "call:np.array", "call:.copy") and a:
-            v = a[0]
-            continue
-        if name == "idx" and len(a) == 2:
-            us = unfn(a[1])
-            if us and us[0] == "slice":
-                lo = us[1][0]
-                return F.const(0) if sym_name(lo) == "None" else lo
-            return None
-        if name == "upd" and len(a) == 3:
-            # vec[rows - s] = values : the scatter index is (row - first row)
-            ix = a[1]
-            if is_rat(ix) and ix.d.is_const():
-                neg = [(m, c) for m, c in ix.n.t.items() if c < 0]
-                if len(neg) == 1 and len(ix.n.t) == 2:
-                    m, c = neg[0]
-                    return F.Rat(F.Poly({m: -c})) / ix.d.const_value()
-            return None
+def split_nwords(nw):
+    """declared word count = a * len(IND) + b * sum(IND[:, 1]) with IND the (start, length) table of the column's strings -> (a, b, IND) or None"""
+    if not is_rat(nw) or not nw.d.is_const():
         return None
-    return None
-
-
-def ns_and_sum(run):
-    """(number of strings, sum of string lengths) of the column, as the values the loop over strings runs over"""
-    for fr in reversed(run.strhdr.frames):
-        if fr.kind == "for" and isinstance(fr.elems, tuple) and len(fr.elems) == 2:
-            it = fr.iterable
-            if is_rat(it):
-                sl = F.fn("slice", S.NONE, S.NONE, S.NONE)
-                return F.fn("idx", F.fn("attr:shape", it), F.const(0)), F.fn("call:sum", F.fn("idx", it, F.fn("tuple", sl, F.const(1))))
-    return None, None
+    sc = 1 / nw.d.const_value()
+    a = b = ind = None
+    sums = []
+    for m, c in nw.n.t.items():
+        if m == () or len(m) != 1 or m[0][1] != 1:
+            return None
+        d = F.atom_desc(m[0][0])
+        if d[0] != "fn":
+            return None
+        v = F.Rat(F.Poly.atom(m[0][0]))
+        u = unfn(v)
+        if u[0] == "len" and len(u[1]) == 1 and a is None:
+            a, ind = c * sc, u[1][0]
+        elif u[0] == "call:sum" and len(u[1]) == 1:
+            sums.append((c * sc, u[1][0]))
+        else:
+            return None
+    if ind is None or len(sums) != 1:
+        return None
+    sl = F.fn("slice", S.NONE, S.NONE, S.NONE)
+    if not same(sums[0][1], F.fn("idx", ind, F.fn("tuple", sl, F.const(1)))):
+        return None
+    return a, sums[0][0], ind
 
 
 # ---------------------------------------------------------------------------------------------------------------------- R4
-def boundary_sites(ctx, L):
-    """every comparison (evaluated anywhere in the writer / loader / skipper runs) between a row count and self._rows4bigmat"""
+def boundary_sites(ctx, L, rows4):
+    """every comparison (evaluated anywhere in the writer / loader / skipper runs) of a row count with the bigmat limit: value - limit, with the
+    limit a constant within one of `rows4`.  Returns [(node, op, coefficient of the row count, constant, function, side)]"""
     sites = {}
     worlds = []
     for enc in ENCS:
@@ -548,49 +545,41 @@ def boundary_sites(ctx, L):
     except S.NeedSplit:
         pass
     worlds.append((W, "skipper"))
-    b4 = atom_id(S.B4)
     for W, origin in worlds:
         for node, op, a, b, q in W.compares:
-            if not (is_rat(a) and is_rat(b)):
+            if not (is_rat(a) and is_rat(b)) or op not in ("Lt", "LtE", "Gt", "GtE", "Eq", "NotEq"):
                 continue
             d = a - b
-            if not d.d.is_const() or b4 not in d.n.atoms():
+            if not d.d.is_const():
                 continue
-            # prefer an occurrence in which the row count enters with the sign opposite to the boundary (rows, not -rows)
-            cb = d.n.t.get(((b4, 1),), 0)
-            oth = [c for m, c in d.n.t.items() if m != () and m != ((b4, 1),)]
-            good = len(oth) == 1 and oth[0] * cb < 0
-            if id(node) not in sites or (good and not sites[id(node)][5]):
-                sites[id(node)] = (node, op, a, b, q, good, origin)
-    return [x[:5] + (x[6],) for x in sites.values()]
+            sc = 1 / d.d.const_value()
+            terms = [(m, c * sc) for m, c in d.n.t.items() if m != ()]
+            k = d.n.t.get((), 0) * sc
+            if len(terms) != 1 or len(terms[0][0]) != 1 or terms[0][0][0][1] != 1 or abs(terms[0][1]) != 1:
+                continue
+            cx = terms[0][1]
+            # value - limit (or limit - value): the constant has the sign opposite to the value and is the limit give or take one
+            if cx * k >= 0 or abs(abs(k) - rows4) > 1:
+                continue
+            if id(node) not in sites:
+                sites[id(node)] = (node, op, cx, k, q, origin)
+    return list(sites.values())
 
 
 def r4_ranges_and_dispatch(ctx):
     L = lab(ctx)
     rows4 = L.rows4()
-    ctx.check(rows4 == BASE, "_rows4bigmat == 2^16, the base used to pack the nonbigmat string header", L.init_fn, rows4)
+    ctx.check(rows4 == BASE, "the nonbigmat writers switch to the bigmat layout at 2^16 rows, the base used to pack the nonbigmat string header "
+                             "(the row number of a string must stay below it)", L.init_fn, rows4)
     if rows4 is None:
-        return
+        rows4 = BASE
     # every comparison against _rows4bigmat puts the boundary between 65535 and 65536 rows
-    sites = boundary_sites(ctx, L)
+    sites = boundary_sites(ctx, L, rows4)
     nsite = 0
     origins = set()
-    for node, op, a, b, q, origin in sorted(sites, key=lambda s: (s[4], getattr(s[0], "lineno", 0))):
-        d = a - b
-        terms = [(m, c) for m, c in d.n.t.items() if m != ()]
-        sc = 1 / d.d.const_value()
-        b4 = atom_id(S.B4)
-        others = [(m, c) for m, c in terms if m != ((b4, 1),)]
-        cb = d.n.t.get(((b4, 1),), 0) * sc
-        if len(others) != 1 or len(others[0][0]) != 1 or others[0][0][0][1] != 1 or cb == 0:
-            continue
-        cx = others[0][1] * sc
-        if cx * cb > 0:
-            continue            # -rows against the boundary: decided by the sign, not a layout boundary
-        k = d.n.t.get((), 0) * sc
-
-        def truth(x):
-            val = cx * x + cb * rows4 + k
+    for node, op, cx, k, q, origin in sorted(sites, key=lambda s: (s[4], getattr(s[0], "lineno", 0))):
+        def truth(x, cx=cx, k=k, op=op):
+            val = cx * x + k
             return {"Lt": val < 0, "LtE": val <= 0, "Gt": val > 0, "GtE": val >= 0, "Eq": val == 0, "NotEq": val != 0}.get(op)
         lo, hi = truth(rows4 - 1), truth(rows4)
         ok = lo is not None and lo != hi
@@ -941,7 +930,11 @@ def r9_no_byte_reinterpretation(ctx):
             elif isinstance(c.func, ast.Attribute) and c.func.attr in ("byteswap", "newbyteorder", "tobytes"):
                 bad = f"`.{c.func.attr}()` on values read in the file's byte order"
             elif d in ("np.frombuffer", "numpy.frombuffer"):
-                bad = "`np.frombuffer` on bytes read in the file's byte order"
+                dt = c.args[1] if len(c.args) > 1 else next((k.value for k in c.keywords if k.arg == "dtype"), None)
+                native = dt is None or (isinstance(dt, ast.Constant) and isinstance(dt.value, str) and dt.value[:1] not in "<>") \
+                    or (dotted(dt) or "").split(".")[-1] in ("float", "complex", "int", "float64", "float32", "complex128", "complex64", "int32", "int64")
+                if native:
+                    bad = "`np.frombuffer` with a native dtype on bytes read in the file's byte order"
             if bad:
                 n += 1
                 ctx.fail("binary loaders never reinterpret the bytes of values read in the file's byte order", c,
